@@ -33,7 +33,7 @@ def one_trace(rng, tid, prop):
                     "coefs": [[rng.choice(gen.coef_pool(kind)) for _ in range(size)]], "dtype": gen.dtype_of(kind)}
         else:
             spec = gen.rand_poly_spec(rng, shape=shape, names=names, kind=kind, max_terms=4, max_exp=2)
-        polys.append(rec.new(build_poly(spec)))
+        polys.append(gen.maybe_view(rec, rng, rec.new(build_poly(spec)), 0.3))
     for _ in range(rng.randint(5, 10)):
         a = rng.choice(polys)
         fam = rng.choice(["lead_exponent", "lead_coefficient", "sortable_proxy", "isconstant", "tonumpy", "todict",
